@@ -124,8 +124,15 @@ func (in *Interp) exec(st *State, fr *Frame, instr ssa.Instruction) []Alt {
 			in.jump(st, fr, fr.Block.Succs[1])
 			return nil
 		}
-		// symbolic branch: unwinding accounting
-		fr.SymVis[fr.Block.Index]++
+		// if-conversion: a triangle or diamond whose arms are empty blocks that
+		// rejoin at once is evaluated with ite instead of forking
+		if in.ifConvert(st, fr, c) {
+			return nil
+		}
+		// symbolic branch at a loop header: unwinding accounting
+		if isLoopHeader(fr.Block) {
+			fr.SymVis[fr.Block.Index]++
+		}
 		if fr.SymVis[fr.Block.Index] > in.Cfg.UnwindSym {
 			st.Assumed = append(st.Assumed, "unwind-bound@"+in.where(st))
 			return []Alt{{Stop: Cut, Why: "unwinding bound reached at " + in.where(st)}}
@@ -157,6 +164,80 @@ func (in *Interp) exec(st *State, fr *Frame, instr ssa.Instruction) []Alt {
 		return nil
 	}
 	panic(fmt.Sprintf("unsupported instruction %T: %s", instr, instr))
+}
+
+// ifConvert handles `if c goto T else F` where T and/or F consist of a single
+// jump to a common join block J (or one of them is J itself). The phis of J
+// become ite(c, vT, vF). Only scalar phi values are merged.
+func (in *Interp) ifConvert(st *State, fr *Frame, c *smt.Term) bool {
+	b := fr.Block
+	tb, fb := b.Succs[0], b.Succs[1]
+	emptyJump := func(x *ssa.BasicBlock) *ssa.BasicBlock {
+		if len(x.Instrs) == 1 && len(x.Preds) == 1 {
+			if _, ok := x.Instrs[0].(*ssa.Jump); ok {
+				return x.Succs[0]
+			}
+		}
+		return nil
+	}
+	var join, fromT, fromF *ssa.BasicBlock
+	jt, jf := emptyJump(tb), emptyJump(fb)
+	switch {
+	case jt != nil && jt == fb:
+		join, fromT, fromF = fb, tb, b
+	case jf != nil && jf == tb:
+		join, fromT, fromF = tb, b, fb
+	case jt != nil && jf != nil && jt == jf:
+		join, fromT, fromF = jt, tb, fb
+	default:
+		return false
+	}
+	if join == in.havocBlock || tb == fb {
+		return false
+	}
+	iT, iF := -1, -1
+	for i, p := range join.Preds {
+		if p == fromT && iT < 0 {
+			iT = i
+		} else if p == fromF {
+			iF = i
+		}
+	}
+	if iT < 0 || iF < 0 {
+		return false
+	}
+	var phis []*ssa.Phi
+	var vals []Value
+	for _, ins := range join.Instrs {
+		phi, ok := ins.(*ssa.Phi)
+		if !ok {
+			break
+		}
+		vt, vf := in.get(fr, phi.Edges[iT]), in.get(fr, phi.Edges[iF])
+		tt, ok1 := vt.(*smt.Term)
+		tf, ok2 := vf.(*smt.Term)
+		if !ok1 || !ok2 {
+			return false
+		}
+		phis = append(phis, phi)
+		vals = append(vals, smt.Ite(c, tt, tf))
+	}
+	for i, p := range phis {
+		fr.Env[p] = vals[i]
+	}
+	fr.Prev, fr.Block = fromT, join
+	fr.IP = len(phis)
+	return true
+}
+
+// isLoopHeader: the block dominates one of its predecessors (target of a back edge).
+func isLoopHeader(b *ssa.BasicBlock) bool {
+	for _, p := range b.Preds {
+		if b.Dominates(p) {
+			return true
+		}
+	}
+	return false
 }
 
 func (in *Interp) doReturn(st *State, ret Value) {
